@@ -4,11 +4,11 @@ import cpu_props
 ID = 'C02'
 LEAN_MODULES = ['Py65.Props.C02']
 NAMESPACES = ['Py65.Props.C02', 'Py65.Proofs.HC', 'Py65.Proofs.H']
-EXPECTED_THEOREMS = ['Py65.Props.C02.C02_partial']
+EXPECTED_THEOREMS = ['Py65.Props.C02.C02_full', 'Py65.Props.C02.C02_partial']
 TRUSTED = ['Spec.Cpu / Spec.Isa (hand-written programming model, the oracle)',
            'translator harness/py2lean.py (Python subset -> Lean), validated on every run by exact-state comparison of the generated model with the real device',
            'Py.land/lor/lxor definitions (characterised bit-wise by theorems in Proofs/PyIntLemmas.lean, differentially tested)']
-ASSUMPTIONS = ['C02_partial covers the opcodes not listed in Py65.Props.C02.unproved (ADC/SBC and ROL/ROR handler theorems are still open; covered by the Spec-vs-device differential only)',
+ASSUMPTIONS = ['C02_full: every one of the 195 declared opcodes is proved (Py65.Props.C02.unproved = []); ADC/SBC under the binary-mode hypothesis (decimal mode is C04), JSR under the no-self-overwrite hypothesis the property itself excludes',
                'JSR: the two stack cells written are not the instruction\'s own operand bytes',
                'state not waiting (WAI behaviour is C06); model state well-formed (WF)']
 LEVEL = 'proof'
